@@ -1,37 +1,60 @@
 import Model.GoKV
 import Generated.GoSet
 import Generated.GoBitSet
+/-! REGENERATED on every run by harness/cmd/go2lean -spec gencommoniface from gencommon/interface.go
+(namedTypeToInterface; the structs Interface and Method (gencommon/method.go), the option constants and the
+interface hasMethods are checked against what the translation assumes).  Do not edit.  One Lean statement per
+Go statement.
+
+* go/types is a TYPE GRAPH handed in as data: a `*types.Named` is a number `t`, `g t` answers
+  `Obj().Name()`, `Obj().Pkg().Path()`, `NumMethods()/Method(i)`, `Underlying()`; a `hasMethods` value is the
+  list of its methods; `s.NumFields()/s.Field(i)` are the list of fields; `x.(*types.T)` is a match on the
+  constructor.  `mInfo.Type().(*types.Signature)` is `mInfo.sig` (the type of a *types.Func is a signature).
+* Recursion goes through a FUEL argument (out of fuel is a panic of `Go.M`); the theorems hold for every fuel
+  above the height of the embedding tree.
+* `*Interface`, `*Method` are values (fresh pointers, not shared while written); a `*Interface` variable that may
+  be nil is an `Option`, reading through it is `Go.deref` (nil dereference = panic).  `Method.rest` stands for
+  the fields the function does not touch (Input, Output).
+* Parameters (`Env`): pkgs.findPKgByName, ih.ExtractTypeRef and MethodFromSignature (they thread the import
+  handler state `ih`, returned next to the result), CommentsFromObj, CommentsFromMethod.
+  `set.Set[string]` methods are the translated ones of Generated/GoSet.lean, `opts.Has` that of
+  Generated/GoBitSet.lean; `map[string]*Method` is a `Go.KV` (walk order = insertion order, see Model/GoKV.lean). -/
 namespace Generated.GoGencommonIface
 
-/-- `*types.Func` -/
+/-- `*types.Func`: Name(), Exported(), Type().(*types.Signature) -/
 structure Func (σ : Type) where
   name : Go.Str
   exported : Bool
   sig : σ
   deriving Inhabited
 
+/-- `v.Elem()` of a `*types.Pointer`: a `*types.Named` or anything else -/
 inductive Elem where
   | named (id : Nat)
   | other
   deriving Inhabited
 
+/-- `field.Type()` -/
 inductive FType where
   | pointer (elem : Elem)
   | named (id : Nat)
   | other
   deriving Inhabited
 
+/-- `*types.Var` of a struct field: Embedded(), Type() -/
 structure Field where
   embedded : Bool
   typ : FType
   deriving Inhabited
 
+/-- `t.Underlying()` -/
 inductive Under (σ : Type) where
   | struct (fields : List Field)
   | iface (methods : List (Func σ))
   | other
   deriving Inhabited
 
+/-- `*types.Named` -/
 structure Named (σ : Type) where
   name : Go.Str
   pkgPath : Go.Str
@@ -41,6 +64,7 @@ structure Named (σ : Type) where
 
 abbrev Graph (σ : Type) := Nat → Named σ
 
+/-- `Method` (gencommon/method.go): the fields namedTypeToInterface writes, `rest` = Input, Output -/
 structure Method (τ κ : Type) where
   Name : Go.Str
   Comments : κ
@@ -48,6 +72,7 @@ structure Method (τ κ : Type) where
   rest : τ
   deriving Inhabited
 
+/-- `Interface` -/
 structure Interface (τ κ ρ : Type) where
   IsInterface : Bool
   Comments : κ
@@ -57,6 +82,7 @@ structure Interface (τ κ ρ : Type) where
   ambiguous : Go.GMap Go.Str
   deriving Inhabited
 
+/-- the external functions -/
 structure Env (S σ τ κ ρ π : Type) where
   findPKgByName : Go.Str → π × Bool
   extractTypeRef : S → Nat → S × ρ
@@ -69,6 +95,7 @@ def IncludeEmbedded : Go.U64 := 1 <<< 1
 
 variable {S σ τ κ ρ π : Type} [Inhabited σ] [Inhabited κ]
 
+/-- `func (pkgs allpkgs) namedTypeToInterface(ih *ImportHandler, t *types.Named, opts set.BitSet[ParseIFaceOption]) *Interface` -/
 def namedTypeToInterface (env : Env S σ τ κ ρ π) (g : Graph σ) :
     Nat → S → Nat → Go.U64 → Go.M (S × Interface τ κ ρ)
   | 0, _, _, _ => throw "out of fuel"
@@ -125,7 +152,8 @@ def namedTypeToInterface (env : Env S σ τ κ ρ π) (g : Graph σ) :
         let r8 ← namedTypeToInterface env g fuel ih v opts
         ih := r8.1
         embeddedIface := some r8.2
-      | _ => continue
+      | _ =>
+        continue
       for m in (← Go.deref embeddedIface).Methods do
         let c9 ← Generated.GoSet.Set.Has ignoreEmbeddedMethodsNamed [m.Name]
         if c9 then
@@ -150,5 +178,8 @@ def namedTypeToInterface (env : Env S σ τ κ ρ π) (g : Graph σ) :
     for m in Go.kvValues methodsToAdd do
       result := { result with Methods := result.Methods ++ [m] }
     return (ih, result)
+
+/-- the translated functions -/
+def translated : List String := ["allpkgs.namedTypeToInterface"]
 
 end Generated.GoGencommonIface
